@@ -25,15 +25,35 @@ def sh(cmd, timeout=600, cwd=None, env=None):
         return 124, out + "\nTIMEOUT"
 
 
-def ensure_static_build():
-    """(re)build the static Coq development if any .vo is missing or stale."""
-    if not os.path.exists(os.path.join(COQ, "Makefile")):
-        rc, out = sh("coq_makefile -f _CoqProject -o Makefile", cwd=COQ)
+def _coqproject_text():
+    files = []
+    for root, _, fs in os.walk(THEORIES):
+        for f in fs:
+            if f.endswith(".v"):
+                files.append(os.path.relpath(os.path.join(root, f), COQ))
+    files.sort()
+    return ("-Q theories QV\n-arg -w -arg " + COQ_WARN + "\n" + "\n".join(files) + "\n")
+
+
+def ensure_static_build(targets=None):
+    """(re)build the static Coq development (or only the given theories, e.g. ["Base/TrigMat"])
+    if any .vo is missing or stale.  Serialised by a file lock so concurrent checks do not race."""
+    import fcntl
+    with open(os.path.join(COQ, ".lock"), "w") as lk:
+        fcntl.flock(lk, fcntl.LOCK_EX)
+        txt = _coqproject_text()
+        cp = os.path.join(COQ, "_CoqProject")
+        old = open(cp).read() if os.path.exists(cp) else ""
+        if old != txt or not os.path.exists(os.path.join(COQ, "Makefile")):
+            with open(cp, "w") as f:
+                f.write(txt)
+            rc, out = sh("coq_makefile -f _CoqProject -o Makefile", cwd=COQ)
+            if rc:
+                raise RuntimeError("coq_makefile failed:\n" + out)
+        tg = " ".join(f"theories/{t}.vo" for t in targets) if targets else ""
+        rc, out = sh(f"timeout 3000 make -j16 {tg}", cwd=COQ, timeout=3100)
         if rc:
-            raise RuntimeError("coq_makefile failed:\n" + out)
-    rc, out = sh("timeout 3000 make -j16", cwd=COQ, timeout=3100)
-    if rc:
-        raise RuntimeError("static Coq build failed:\n" + out[-4000:])
+            raise RuntimeError("static Coq build failed:\n" + out[-4000:])
 
 
 def coqc(path, timeout=600, extra_q=()):
@@ -122,6 +142,23 @@ class Run:
             return None, out
         return {lab: b for (lab, _), b in zip(items, bs)}, out
 
+    def coq_eval(self, name, header, exprs, timeout=600):
+        """evaluate Coq terms with vm_compute, one `Eval` per term; returns the list of printed
+        values as strings (whitespace-normalised), or None if the file does not compile."""
+        body = header + "\n" + "".join(f"Eval vm_compute in ({e}).\n" for e in exprs)
+        p = self.write(name, body)
+        ok, out = coqc(p, timeout)
+        self.checker_cmds.append(f"coqc {os.path.relpath(p, VERIF)}")
+        if not ok:
+            self.notes.setdefault("coq_errors", []).append({"file": name, "log": out[-1500:]})
+            return None
+        vals = re.findall(r"^\s*= (.*?)\n\s*: ", out, re.S | re.M)
+        vals = [" ".join(v.split()) for v in vals]
+        if len(vals) != len(exprs):
+            self.notes.setdefault("coq_errors", []).append({"file": name, "log": "value count mismatch"})
+            return None
+        return vals
+
     def coq_theorems(self, name, header, thms, timeout=900):
         """thms: list of (thm_name, statement, proof). Compiles them in one file with
         Print Assumptions under each; returns (ok, out). Collects axioms."""
@@ -204,3 +241,29 @@ class Run:
               f"distinct={len(self.distinct)} findings={len(self.findings)} violations={violations} "
               f"wall={ev['wall_s']}s")
         return 1 if violations else 0
+
+
+def props_theorems(relpath):
+    """names of the Theorems stated in a static Props file (relative to coq/theories)"""
+    txt = open(os.path.join(THEORIES, relpath)).read()
+    return re.findall(r"^\s*Theorem\s+([A-Za-z_][\w']*)", txt, re.M)
+
+
+def static_assumptions(theory, timeout=600):
+    """compile a tiny file that re-prints `Print Assumptions` for every Theorem of a static Props
+    theory (e.g. "C07/Props"); returns {theorem: text}."""
+    names = props_theorems(theory + ".v")
+    mod = "QV." + theory.replace("/", ".")
+    d = os.path.join(BUILD, "assumptions")
+    os.makedirs(d, exist_ok=True)
+    p = os.path.join(d, theory.replace("/", "_") + "_pa.v")
+    with open(p, "w") as f:
+        f.write(f"Require Import {mod}.\n" + "".join(f'Print Assumptions {n}.\n' for n in names))
+    ok, out = coqc(p, timeout)
+    res = {}
+    if ok:
+        chunks = re.split(r"(?=^(?:Closed under the global context|Axioms:))", out, flags=re.M)
+        chunks = [c.strip() for c in chunks if c.strip()]
+        for n, c in zip(names, chunks):
+            res[n] = " ".join(c.split())
+    return ok, res
